@@ -111,11 +111,12 @@ func cmdCheck(args []string) int {
 	}
 	ms := *timeout
 	if ms == 0 {
-		ms = 10000
+		ms = 20000
 		if *tier == "thorough" {
-			ms = 60000
+			ms = 120000
 		}
 	}
+	crossCheck = *tier == "thorough"
 	opts := &Options{Overflow: *overflow}
 	var results []*FuncResult
 	var allPaths []*PathScript
